@@ -252,20 +252,40 @@ static void put_sched(Rng &g, Rec &r, int T) {
   r.a.push_back(tmp.i["st0"]); r.a.push_back(tmp.i["sp0"]); r.a.push_back(tmp.i["ss0"]); r.a.push_back(tmp.i["sw0"]);
 }
 
+// Operations of one history are related on purpose: process-wide state that is keyed on part of an operation's
+// parameters (a cached key schedule, hasher, buffer size, file name ...) only shows when a later operation repeats some
+// parameters of an earlier one and changes others.
+struct HistBase { uint8_t key[16]; int T; long cm, hm, len, pseed; };
+static HistBase g_hb;
+static void hist_key(Rng &g, uint8_t out[16]) {
+  memcpy(out, g_hb.key, 16);
+  switch (g.below(20)) {
+  case 0: case 1: case 2: case 3: case 4: case 5: case 6: break;                           // the same key again
+  case 7: case 8: case 9: case 10: g.bytes(out + 8, 8); break;                             // same first half
+  case 11: case 12: g.bytes(out, 8); break;                                                // same second half
+  case 13: case 14: out[g.below(16)] ^= (uint8_t)(1u << g.below(8)); break;                // one-bit neighbour
+  case 15: out[15] ^= 0xFF; break;
+  default: g.bytes(out, 16);                                                               // unrelated
+  }
+}
+
 static Rec gen_api(Rng &g, long oid) {
   Rec r;
   r.kind = "api";
   int op = (int)g.below(3);
-  int T = g.chance(0.2) ? (int)g.range(5, 16) : (int)g.range(1, 4);
+  int T = g.chance(0.5) ? g_hb.T : (g.chance(0.2) ? (int)g.range(5, 16) : (int)g.range(1, 4));
   long ch = (long)build_chunk_bytes();
   long len = g.chance(0.3) ? std::max<long>(0, (1 + (long)g.below(4)) * ch - 1 - (long)g.below(16)) : (long)g.below(4 * ch + 1);
+  if (g.chance(0.4)) len = g_hb.len;
   int variant = V_NORMAL;
   if (g.chance(0.35)) variant = op == OP_ENC ? (g.chance(0.3) ? V_FINNULL : V_NORMAL) : 1 + (int)g.below(4);
-  r.a = {op, T, (long)g.below(5), (long)g.below(3), len, (long)(g.next() >> 2), variant};
+  long cm = g.chance(0.5) ? g_hb.cm : (long)g.below(5), hm = g.chance(0.5) ? g_hb.hm : (long)g.below(3);
+  long pseed = (len == g_hb.len && g.chance(0.6)) ? g_hb.pseed : (long)(g.next() >> 2);
+  r.a = {op, T, cm, hm, len, pseed, variant};
   put_sched(g, r, T);
   r.a.push_back(oid);
   r.data.resize(16 + 1 + g.below(12));
-  g.bytes(r.data.data(), 16);
+  hist_key(g, r.data.data());
   for (size_t k = 16; k < r.data.size(); k++) r.data[k] = (uint8_t)(1 + g.below(255));
   return r;
 }
@@ -279,10 +299,11 @@ static Rec gen_argv(Rng &g, long oid) {
   r.kind = "argv";
   long ch = (long)build_chunk_bytes();
   long len = g.chance(0.3) ? std::max<long>(0, (1 + (long)g.below(5)) * ch - 1 - (long)g.below(16)) : (long)g.below(5 * ch + 1);
-  long cm = (long)g.below(5), hm = (long)g.below(3);
+  long cm = g.chance(0.5) ? g_hb.cm : (long)g.below(5), hm = g.chance(0.5) ? g_hb.hm : (long)g.below(3);
   long simtime = 1700000000 + (long)g.below(100000000);
   r.data.resize(16);
-  g.bytes(r.data.data(), 16);
+  hist_key(g, r.data.data());
+  if (g.chance(0.3)) len = g_hb.len;
   std::string key = b64(r.data.data(), 16);
   std::string in = "in" + std::to_string(oid), enc = "enc" + std::to_string(oid), out = "out" + std::to_string(oid);
   long need_enc = 0, outkind = 0;
@@ -317,6 +338,11 @@ static void gen_C15(const std::string &tier, uint64_t seed, long idx, Scn &s) {
   Rng g(Rng::mix(seed, 0xC15, (uint64_t)idx));
   int n = 2 + (int)g.below(7);
   bool argv_heavy = g.chance(0.5);
+  g.bytes(g_hb.key, 16);
+  g_hb.T = (int)g.range(1, 4);
+  g_hb.cm = (long)g.below(5); g_hb.hm = (long)g.below(3);
+  g_hb.len = (long)g.below(4 * build_chunk_bytes() + 1);
+  g_hb.pseed = (long)(g.next() >> 2);
   for (int k = 0; k < n; k++) s.ops.push_back(g.chance(argv_heavy ? 0.8 : 0.2) ? gen_argv(g, k) : gen_api(g, k));
 }
 
